@@ -283,7 +283,12 @@ apart from `reset`, a request changes at most one already existing slot. -/
 theorem stepStore_frame (st st' : Store) (toks : List String) (out : String)
     (h : stepStore st toks = some (st', out)) (hr : toks ≠ ["reset"]) :
     ∃ i, ∀ j, j < st.length → j ≠ i → st'[j]? = st[j]? := by
-  simp only [stepStore, hr, if_false, Option.map_eq_some_iff, Prod.mk.injEq] at h
+  unfold stepStore at h
+  rw [if_neg hr] at h
+  split at h
+  · simp only [Option.some.injEq, Prod.mk.injEq] at h
+    rw [← h.1]; exact ⟨0, fun _ _ _ => rfl⟩
+  simp only [Option.map_eq_some_iff, Prod.mk.injEq] at h
   obtain ⟨⟨e, o⟩, _, rfl, _⟩ := h
   cases e with
   | keep => exact ⟨0, fun _ _ _ => rfl⟩
